@@ -153,10 +153,13 @@ def get_type_graph(t: type) -> graphlib.TopologicalSorter[TypeNode]:
             #   wrap in a ForwardRef and don't add it to the stack
             #   This will terminate this edge to prevent infinite cycles.
             if is_visited and can_be_cyclic and (
-                is_generic or inspection.should_unwrap(child)
+                is_generic
+                or inspection.should_unwrap(child)
+                or inspection.isforwardref(child)
             ):
                 # A reference can't carry the parameters of a generic (or a qualifier
                 #   such as `Final[...]`), so we defer the annotation itself.
+                #   A member which already is a reference is deferred as it is.
                 node = TypeNode(child, unwrapped, var=var, cyclic=True)
             elif is_visited and can_be_cyclic:
                 qualname = inspection.qualname(child)
